@@ -3,6 +3,8 @@
 From Coq Require Import ZArith List Bool Lia.
 Import ListNotations.
 From XO Require Import Slots Strides BufOps Types Format Check LayoutProofs RoundTrip Update UpdateSize UpdateFrame UpdateAt PartExtent.
+From XO Require Import AllocSpec BufOps Types Format.
+From XO Require CopyBytes HeapCompose.
 From XO Require CopyBytes DecLocal.
 Open Scope Z_scope.
 
@@ -72,6 +74,17 @@ Proof. exact DecLocal.dec_local. Qed.
 Theorem C03_decoded_size : forall t m off v s, has_refs t = false -> dec t m off = Some (v, s) ->
   0 <= s /\ forall cs, csize t = Some cs -> s = cs.
 Proof. exact DecLocal.dec_size. Qed.
+(* ALLOCATOR AND LAYOUT COMPOSED: whatever the allocator does within its safety contract when a new object is
+   constructed (hand out free or new bytes, after growing the buffer or not), every object lying inside a live
+   region keeps decoding to the same value with the same size (any accepted bytes, reference-free types) *)
+Theorem C03_construction_keeps_live_objects : forall s s' size al o m m1 bs t off v sz r,
+  SInv s -> safe_step s (OAlloc size al) (RetOff o) s' ->
+  len m = s_cap s -> len m1 = s_cap s' -> CopyBytes.agree_on m m1 0 (len m) ->
+  len bs = size ->
+  In r (s_live s) -> r_off r <= off -> off + sz <= r_off r + r_size r ->
+  has_refs t = false -> dec t m off = Some (v, sz) ->
+  dec t (wr m1 o bs) off = Some (v, sz).
+Proof. exact HeapCompose.construction_keeps_live_objects. Qed.
 Theorem C03_slot_rounding : forall n, n <= slot n < n + 8 /\ slot n mod 8 = 0.
 Proof. exact slot_spec. Qed.
 Print Assumptions C03_write_frame.
@@ -87,3 +100,4 @@ Print Assumptions C03_part_extent_is_where_the_part_sits.
 Print Assumptions C03_bytes_outside_the_extent_are_irrelevant.
 Print Assumptions C03_decoder_reads_own_extent_only.
 Print Assumptions C03_decoded_size.
+Print Assumptions C03_construction_keeps_live_objects.
